@@ -335,7 +335,7 @@ for _v in ('v311', 'v5'):
 S('st_recv_two_packets_one_buffer', {'C09': 'quick'}, est=500,
   bounds='recv() three times on one buffer holding PINGRESP + PUBACK(i), id symbolic', symbolic='i, timer configuration', encodes=['GenericConnection::recv', 'PacketBuilder::feed', 'process_recv_packet'])
 K('c04_v311_connect_prefixes', {'C04': 'quick', 'C03': 'thorough', 'C05': 'thorough'}, est=400, stubs=_st, mem='L',
-  bounds='every prefix (0..=13 and 0..=19 bytes) of two v3.1.1 CONNECT bodies (without / with user name and password); keep-alive, flags and string bytes symbolic', symbolic='6 bytes, clean flag',
+  bounds='every prefix (0..=13 bytes) of a v3.1.1 CONNECT body; keep-alive and clean flag symbolic', symbolic='2 bytes, clean flag',
   encodes=['v3_1_1::Connect::parse', 'size', 'to_continuous_buffer', 'accessors'])
 K('c04_v5_connect_prefixes', {'C04': 'thorough', 'C03': 'thorough'}, est=600, stubs=_st, mem='XL',
   bounds='every prefix (0..=14 bytes) of a v5.0 CONNECT body without properties', symbolic='3 bytes, clean flag', encodes=['v5_0::Connect::parse'])
@@ -394,7 +394,7 @@ for _k in ('suback_v311', 'unsuback_v311', 'suback_v5', 'unsuback_v5'):
 CODEC_UWS = STEP_UWS[:-1] + [(r'verif_harness', 24), STEP_UWS[-1]]
 LONG_UWS = STEP_UWS[:-1] + [(r'verif_harness', 140), (r'mqtt_string|mqtt_binary|arc_payload', 140), (r'memcmp|compare_bytes|SlicePartialEq|5slice3cmp', 140), STEP_UWS[-1]]
 for _h in HARNESSES:
-    if _h['file'] == 'codec' and (_h['name'].startswith(('c02_v5_', 'c04_v5_')) or _h['name'] in ('c04_subscribe_family_prefixes', 'c04_suback_family_prefixes', 'c04_v311_connect_prefixes', 'c03_numeric_tables', 'c02_v311_connect', 'c02_v311_subscribe_family')):
+    if _h['file'] == 'codec' and (_h['name'].startswith(('c02_v5_', 'c04_v5_')) or _h['name'] in ('c04_subscribe_family_prefixes', 'c04_suback_family_prefixes', 'c03_numeric_tables', 'c02_v311_connect', 'c02_v311_subscribe_family')):
         _h['uws'] = LONG_UWS if 'props12' in _h['name'] else CODEC_UWS
 for _n in ('c02_string_new_n3',):
     for _h in HARNESSES:
